@@ -86,6 +86,33 @@ def run(chk):
             k = X.const(3) / X.const(2 * (l - 1)) / (1 + it.call(m, m.defs['effective_rigidity_general'], [mu, g, R, rho, l]) / (J * mu))
             ref = X.fn('real', k) + X.I * X.fn('imag', k) * scale
             eq('R12.3', f'collapse_modes love_number_by_orderl[{l}] (max_l={lmax})', love[l], ref, mm.where(f))
+    # R12.4 ragged multi-frequency input: signatures that carry different sets of degrees (as the obliquity-off tables produce: l=2 has m in {0,2},
+    # l=3 has m in {1,3}); the Love number applied to the term of (signature, l) must be k_l(J(signature)) - for every channel and in the averages
+    sigs = {('n', 'o'): (2,), ('2n', 'o'): (2, 3), ('n', '2o'): (3,), ('3n', '2o'): (2, 4), ('n', '3o'): (4, 3), ('2n', '3o'): (2, 3, 4)}
+    for order in (list(sigs), list(reversed(list(sigs)))):
+        terms = {sg: {l: tuple(X.atom(f't_{sg[0]}{sg[1]}_{l}_{k}') for k in range(4)) for l in sigs[sg]} for sg in order}
+        comp = {sg: X.atom(f'J_{sg[0]}{sg[1]}', 'complex') for sg in order}
+        out = it.call(mm, f, [g, R, rho, mu, scale, hm, sus, comp, terms, 4], {'cpl_ctl_method': False})
+        ref = [X.ZERO] * 4; by_l = {}
+        for sg in order:
+            for l in sigs[sg]:
+                k = X.const(3) / X.const(2 * (l - 1)) / (1 + m_l(l) / (comp[sg] * mu))
+                ks = X.fn('real', k) + X.I * X.fn('imag', k) * scale
+                by_l.setdefault(l, []).append(ks)
+                negimk = -(X.fn('imag', k) * scale)
+                ref[0] = ref[0] + terms[sg][l][0] * negimk * sus
+                for c in (1, 2, 3):
+                    ref[c] = ref[c] + terms[sg][l][c] * negimk / hm * sus
+        tag_ = 'insertion order' if order[0] == ('n', 'o') else 'reversed order'
+        for c, nm in enumerate(('tidal_heating', 'dUdM', 'dUdw', 'dUdO')):
+            eq('R12.4', f'collapse_modes {nm}: each (signature, l) term is weighted by -Im k_l(J(signature)) with k_l the closed form (6 signatures with different degree sets, {tag_})',
+               out[c], ref[c], mm.where(f))
+        for l, ks in by_l.items():
+            avg = ks[0]
+            for k_ in ks[1:]:
+                avg = avg + k_
+            eq('R12.4', f'collapse_modes love_number_by_orderl[{l}] == mean over the signatures carrying degree {l} of k_{l}(J(signature)) ({tag_})', out[4][l], avg / len(ks), mm.where(f))
+    chk.floor('R12.4', 14)
     chk.note_analysed('functions', 'mode_manipulation.collapse_modes')
     chk.floor('R12.1', 18); chk.floor('R12.2', 4); chk.floor('R12.3', 10)
     chk.assume('mu, g, R, rho > 0; compliance J complex; algebra over the reals/complex numbers (no rounding)')
